@@ -30,8 +30,9 @@ import (
 )
 
 type Blob struct {
-	Seed int `json:"seed"`
-	Len  int `json:"len"`
+	Seed int    `json:"seed"`
+	Len  int    `json:"len"`
+	Kind string `json:"kind"` // "" pseudo-random (incompressible) | "zeros" | "text"
 }
 
 type FileSpec struct {
@@ -73,6 +74,16 @@ type History struct {
 
 func pattern(b Blob) []byte {
 	out := make([]byte, b.Len)
+	if b.Kind == "zeros" {
+		return out
+	}
+	if b.Kind == "text" {
+		line := []byte(fmt.Sprintf("line %d of the quick brown fox jumps over the lazy dog\n", b.Seed))
+		for i := range out {
+			out[i] = line[i%len(line)]
+		}
+		return out
+	}
 	x := uint32(b.Seed)*2654435761 + 12345
 	for i := range out {
 		x = x*1664525 + 1013904223
